@@ -511,7 +511,17 @@ def isDue (now : Time) (e : Entry) : Bool :=
   | some t => t ≤ now
   | none => false
 
-def pitExpire (s : St) : St := (s.pit.filter (isDue s.now)).foldl expireOne s
+/-- all due entries are popped from the expiry queue; entries with EQUAL priority come out in heap
+    order, which the model does not track: when that order matters for the resulting tables (the
+    name-tree slice order decides `pitEntries[0]` of a later multi-match) the state is flagged
+    ambiguous (A-clock) -/
+def pitExpire (s : St) : St :=
+  let due := s.pit.filter (isDue s.now)
+  let a := due.foldl expireOne s
+  let b := due.reverse.foldl expireOne s
+  -- the dead nonce list may differ in the order of records made at this very instant (same expiry)
+  if a.pit == b.pit && a.dnl.length == b.dnl.length && a.dnl.all (fun d => b.dnl.contains d) then a
+  else { a with amb := true }
 
 def nextUpdDelay (now : Time) (pit : List Entry) : Nat :=
   match pit.filterMap (·.sched) with
